@@ -84,16 +84,16 @@ def hllunion_nontrivial(evs):
             mode[e["id"]], lgk[e["id"]], empty[e["id"]] = e["mode"], e["lgk"], True
         elif k == "Feed":
             mode[e["id"]], empty[e["id"]] = e["mode"], False
-        elif k == "Deser":
+        elif k in ("Deser", "Craft", "UResultAs"):
             r = e["r"]
             mode[e["dst"]], lgk[e["dst"]], empty[e["dst"]] = r["mode"], r["lgk"], r["empty"]
         elif k == "UNew":
             lgmax[e["u"]] = e["lgmaxk"]
             hits[e["u"]] = [0, False]
-        elif k == "UUpdate" and not empty.get(e["src"], True):
+        elif k == "UUpdate" and not empty.get(e["src"], True) and e["u"] in hits:
             h = hits[e["u"]]
             h[0] += 1
-            if mode[e["src"]] == 2 and lgk[e["src"]] != lgmax[e["u"]]:
+            if mode.get(e["src"]) == 2 and lgk.get(e["src"]) != lgmax[e["u"]]:
                 h[1] = True
             if h[0] >= 2 and h[1]:
                 return True
